@@ -44,7 +44,7 @@ CHECKS = {
                       "Sequences are at most 3 synthetic hunks; context of at most two lines.",
         "rule": "leg diffs: d = a.Diff(b, opts) over C01's generator with payload strings and nasty keys, targets a and a perturbed document; "
                 "leg synthetic: 1-3 hunks built from DiffElement fields, strict hunks first then merge hunks, a target constructed to fit the first hunk "
-                "plus a random one. Non-trivial: >= 2 hunks, or a non-boundary context line, or a metadata line, or a multi-value set hunk, or a payload "
+                "plus a random one; leg cli: both binaries print the diff of payload-heavy documents (%, quotes, control characters, 70 KB strings), the text must equal the library rendering and jd -p must turn a into b. Non-trivial: >= 2 hunks, or a non-boundary context line, or a metadata line, or a multi-value set hunk, or a payload "
                 "needing JSON escapes; distinct by the full case.",
         "assumptions": ["well-formedness of synthetic hunks = what checkDiffElement documents: several values only on index/set/multiset paths, void add only in merge hunks, context only on index hunks"],
         "legs": [
@@ -77,7 +77,7 @@ CHECKS = {
         "level_note": "Set and bag equality in jd is decided by 64-bit hashes: absence of collisions that need a pre-image search is out of reach of "
                       "generated-input search; six constructible aliases of numbers are the listed finding D15.",
         "rule": "random leg: (x, permutation / duplication / permutation+duplication / Edit / one-confusable-swap of x), confusable roots, independent docs, "
-                "under list, set, mset, setkeys:id, and Precision(eps) with numbers moved by {0, .5, .999999, 1, 1+2^-20, 2} x eps; exhaustive leg: all ordered pairs of "
+                "under list, set, mset, setkeys:id, and Precision(eps) with numbers moved by {0, .5, .999999, 1, 1+2^-20, 2} x eps; patched leg: a' = Patch(a, a.Diff(x, opts1)) compared with b under opts2 against the canonical forms (a document returned by Patch is a document like any other); exhaustive leg: all ordered pairs of "
                 "confusable atoms as root, [x], [x,x] and {\"k\":[1,x]}, plus the void document against every atom. Non-trivial: texts differ and the oracle says equal, "
                 "or a near miss (equal under another reading, different JSON types, or equal within 1); distinct by (a, b, options).",
         "assumptions": ["canonical forms compare numbers exactly with -0 == 0"],
@@ -96,7 +96,7 @@ CHECKS = {
                       "with Equals under the translated flags. Exploration over sampled pairs.",
         "level_note": "Equals is taken as given (C04 decides it). CLI cases whose diff cannot be rendered in the requested format (status 2) are skipped and counted.",
         "rule": "library leg: C04's boundary-pair generator (65%) and C01's pair generator (35%) x {list, set, mset, setkeys:id, merge, set+merge, mset+merge, prec:eps}; "
-                "both a.Diff(b) and b.Diff(a) are compared with Equals. cli leg: the same pairs written to files, binary in {v2/jd, top-level}, flags translated from the "
+                "both a.Diff(b) and b.Diff(a) are compared with Equals. patched leg: the biconditional with a document returned by Patch on either side; merge+precision pairs; cli leg: the same pairs written to files, binary in {v2/jd, top-level}, flags translated from the "
                 "option set plus -f jd|patch, -color, -yaml. Non-trivial: texts differ (both 'equal' and 'unequal' classes are counted separately); distinct by the full case.",
         "assumptions": ["flag -> option translation as documented in the README usage text"],
         "legs": [
@@ -181,7 +181,7 @@ CHECKS = {
         "level_text": "Every (target, patch) pair over the grammar v ::= 1 | null | [1] | {} | {a:v} | {a:v,b:v} to depth 2 is read and applied by jd and by the RFC 7386 "
                       "pseudocode and the results must be identical; larger documents with injected nulls and empty objects are sampled. Complete for the enumerated grammar, exploration beyond it.",
         "level_note": "Trusts ref.MergePatch. Two root-level corner cases are listed findings (D16: patch null; D17: patch {} on a non-object target) and are excluded by construction of the verdict, counted in excluded_known.",
-        "rule": "exhaustive leg: all ordered pairs of the 604 grammar values (thorough: leaf \"s\" added); random leg: targets = objects (70%) or any document, patch = Edit(target) with nulls and {} injected at drawn depths and new keys, "
+        "rule": "exhaustive leg: all ordered pairs of the 604 grammar values (thorough: leaf \"s\" added); chain leg: 2-4 merge patches applied one after the other to the value returned by the previous Patch (no re-parsing), compared with the folded RFC algorithm, with fixed probe patches on fresh documents after every step (state leaking between calls); random leg: targets = objects (70%) or any document, 30% sharing a chain of up to 6 nested objects with the patch, patch = Edit(target) with nulls and {} injected at drawn depths and new keys, "
                 "or an independent value. Non-trivial: the patch contains a null or a nested {} , or it is an object applied to a non-object; distinct by (target, patch).",
         "assumptions": ["array values in results are compared as ordered lists"],
         "legs": [
@@ -197,7 +197,7 @@ CHECKS = {
                       "library's rendering, the exit status 0/1/2 must follow the library result, -o must put exactly those bytes into the file and nothing on stdout, stdin must be equivalent to a file, the printed diff "
                       "fed to -p must reproduce b (jd, patch, merge formats; JSON and YAML), -t translations must equal the library's and -git-diff-driver must print the diff of arguments 2 and 5 and exit 0. Exploration over sampled configurations.",
         "level_note": "The web UI (-port) and the GitHub action wrapper are not started. The merge round trip for a non-object a and b = {} is the listed finding D17. Each binary is compared with its own library (v1 honours precision differently from v2).",
-        "rule": "diff mode 70% (then -o, stdin, -p, -p -o, -p stdin runs on the same case), translate 20% (6 translations, 12% with a mutated input), git-diff-driver 10%; binary in {v2/jd, top-level, top-level -v2=false}; option set in "
+        "rule": "diff mode 70% (then -o, stdin, -p, -p -o, -p stdin runs on the same case), translate 20% (6 translations, 12% with a mutated input), git-diff-driver 10%; binary in {v2/jd, top-level, top-level -v2=false}; -o always writes over an existing longer file, stdin is tried as a pipe and as a redirected file, -setkeys is written with and without blanks, 10% of the documents hold a 70 KB string; precision leg: in-memory round trip under Precision(eps); option set in "
                 "{list, set, mset, setkeys:id, merge, set+merge, mset+merge, precision}; -f jd|patch, -yaml, -color. Non-trivial: at least one flag and a non-empty diff (translate: a successful translation of a non-empty input); distinct by the full case.",
         "assumptions": ["flag -> option translation as in the README usage text; Precision(p) is always passed, as both mains do"],
         "legs": [
@@ -253,7 +253,7 @@ CHECKS = {
         "level_note": "Native fuzzing cannot be pinned to VERIF_SEED; a saved crasher is the reproducible unit. The -v2=false mode (v1 library) is outside this property. "
                       "A status-2 message that quotes multi-line input is counted (multi-line-message), not reported.",
         "rule": "structure leg: 1-2 hunks on real paths of a generated target with one of 14 damages, as DiffElements or as native text; patch leg: 1-5 ops incl. unsupported ones, 35% hostile pointers; merge leg: related and unrelated patch documents; "
-                "bytes leg: 1-3 mutations (byte/line edits, hostile numbers, spliced hostile texts) of valid diff / patch / merge / JSON / YAML texts or of ~130 hostile constants; constants leg: every constant x 5 readers x 7 targets; "
+                "bytes leg: 1-3 mutations (byte/line edits, hostile numbers, spliced hostile texts) of valid diff / patch / merge / JSON / YAML texts or of ~130 hostile constants; constants leg: every constant x 5 readers x 7 targets; scale leg: documents holding one string of 1-70 KB that is replaced, every call must allocate less than 400 bytes per input byte + 4 MB (a quadratic table would be gigabytes and the process would be killed); "
                 "cli leg: diff / patch / translate invocations with such files as FILE1, FILE2 or stdin. Non-trivial: the input was accepted by the reader and reached Patch or the renderers (cli: the process reported an error); distinct by the full case.",
         "assumptions": ["a Go panic in the CLI is recognised by 'panic:', 'goroutine ' or 'runtime error' on stderr (its exit status is also 2)"],
         "legs": [
